@@ -231,9 +231,11 @@ func runCase(idx int, seed uint64, f Features) Case {
 		return cs
 	}
 	_, p1 := newChainFromExport(c, state)
-	cs.ImportPanic = p1
 	patched := state
-	if p1 != "" {
+	if strings.Contains(p1, "invalid genesis version") {
+		// x/upgrade refuses its own export (regression of 0bb355b): record it, and rewrite the version so
+		// that the deeper comparison can still run
+		cs.ImportPanic = p1
 		patched = patchUpgradeVersion(state)
 	}
 	c2, p2 := newChainFromExport(c, patched)
